@@ -88,6 +88,8 @@ def _call(item):
     res.setdefault("status", "ok")
     res["wall_s"] = round(time.time() - t0, 3)
     res.setdefault("item", _jsonable(item))
+    if isinstance(item, dict) and "section" in item:
+        res.setdefault("section", item["section"])
     return res
 
 
